@@ -19,9 +19,9 @@ EXTENDS Integers, Sequences, FiniteSets, TLC, Json, IOUtils
 Trace == ndJsonDeserialize(IOEnv.TRACE_FILE)
 
 VARIABLES l, cfg, added, removed, sclosed, accepted, winLo, winHi, rejected, rejClosed, closeCalled,
-          started, replied, hung, sdNil, startedAtSd, cancelled, serveRet
+          started, replied, hung, sdNil, startedAtSd, cancelled, serveRet, lfailed, sdCalled
 vars == <<l, cfg, added, removed, sclosed, accepted, winLo, winHi, rejected, rejClosed, closeCalled,
-          started, replied, hung, sdNil, startedAtSd, cancelled, serveRet>>
+          started, replied, hung, sdNil, startedAtSd, cancelled, serveRet, lfailed, sdCalled>>
 
 NoCfg == [onAccept |-> FALSE, onClose |-> FALSE]
 Live == added \ removed
@@ -30,15 +30,20 @@ LiveLo == Cardinality(Live \ sclosed)
 Min(a, b) == IF a < b THEN a ELSE b
 Max(a, b) == IF a > b THEN a ELSE b
 
+\* beyond the listed properties (check E05, VERIF_EXTRA=1)
+Extra == IOEnv.VERIF_EXTRA = "1"
+
 J_end(e) ==
     IF rejected \ rejClosed # {} THEN "rejected-connection-not-closed"
     ELSE IF cfg.onClose /\ (added \cup removed) \ closeCalled # {} THEN "close-callback-missing-for-a-served-connection"
     ELSE IF added \ removed # {} THEN "served-connection-never-removed-from-the-live-connection-accounting"
-    ELSE IF sdNil /\ serveRet # "closed" THEN "serve-did-not-return-the-server-closed-error-after-shutdown"
+    \* (a listener failure is outside C17's quantification: the serve call has then returned the listener's error before Shutdown came)
+    ELSE IF sdNil /\ serveRet # "closed" /\ ~lfailed THEN "serve-did-not-return-the-server-closed-error-after-shutdown"
     ELSE IF sdNil /\ e.dialAfter THEN "listener-still-accepting-after-shutdown"
     ELSE IF sdNil /\ {e.open[i] : i \in DOMAIN e.open} \cap accepted # {} THEN "connection-left-open-after-graceful-shutdown"
     ELSE IF sdNil /\ (startedAtSd \ replied) \ hung # {} THEN "request-whose-handler-had-started-got-no-reply-although-shutdown-succeeded"
     ELSE IF cancelled /\ ~e.served THEN "serve-did-not-return-after-context-cancel"
+    ELSE IF Extra /\ lfailed /\ ~e.served THEN "extra:serve-did-not-return-after-the-listener-failed"
     ELSE "ok"
 
 Judge(e) ==
@@ -53,19 +58,22 @@ Judge(e) ==
       [] e.ev = "crash" -> "server-process-crashed"
       [] e.ev = "race" -> "data-race-reported-by-the-race-detector"
       [] e.ev = "shutdown.stuck" -> "shutdown-did-not-return"
+      \* E05 (ServerLifecycle!ClosedOnlyWhenAsked): "server closed" answers Shutdown or cancellation only
+      [] e.ev = "serve.ret" ->
+            IF Extra /\ e.err = "closed" /\ lfailed /\ ~cancelled /\ ~sdCalled THEN "extra:listener-failure-reported-as-server-closed" ELSE "ok"
       [] e.ev = "end" -> J_end(e)
       [] OTHER -> "ok"
 
 Init ==
     /\ l = 1 /\ cfg = NoCfg /\ added = {} /\ removed = {} /\ sclosed = {} /\ accepted = {} /\ winLo = 0 /\ winHi = 0
     /\ rejected = {} /\ rejClosed = {} /\ closeCalled = {} /\ started = {} /\ replied = {} /\ hung = {}
-    /\ sdNil = FALSE /\ startedAtSd = {} /\ cancelled = FALSE /\ serveRet = "none"
+    /\ sdNil = FALSE /\ startedAtSd = {} /\ cancelled = FALSE /\ serveRet = "none" /\ lfailed = FALSE /\ sdCalled = FALSE
 
 Upd(e) ==
     CASE e.ev = "reset" ->
             /\ cfg' = e /\ added' = {} /\ removed' = {} /\ sclosed' = {} /\ accepted' = {} /\ winLo' = 0 /\ winHi' = 0
             /\ rejected' = {} /\ rejClosed' = {} /\ closeCalled' = {} /\ started' = {} /\ replied' = {} /\ hung' = {}
-            /\ sdNil' = FALSE /\ startedAtSd' = {} /\ cancelled' = FALSE /\ serveRet' = "none"
+            /\ sdNil' = FALSE /\ startedAtSd' = {} /\ cancelled' = FALSE /\ serveRet' = "none" /\ lfailed' = FALSE /\ sdCalled' = FALSE
       [] e.ev = "hook" ->
             LET a2 == IF e.point = "track.add" THEN added \cup {e.conn} ELSE added
                 r2 == IF e.point = "track.remove" THEN removed \cup {e.conn} ELSE removed
@@ -77,30 +85,31 @@ Upd(e) ==
                /\ rejClosed' = IF e.point = "accept.rejected" THEN rejClosed \cup {e.conn} ELSE rejClosed
                /\ IF e.point = "accept.ret" THEN winLo' = lo /\ winHi' = hi
                   ELSE winLo' = Min(winLo, lo) /\ winHi' = Max(winHi, hi)
-               /\ UNCHANGED <<cfg, rejected, closeCalled, started, replied, hung, sdNil, startedAtSd, cancelled, serveRet>>
+               /\ UNCHANGED <<cfg, rejected, closeCalled, started, replied, hung, sdNil, startedAtSd, cancelled, serveRet, lfailed, sdCalled>>
       [] e.ev = "cb.accept" ->
             /\ rejected' = IF e.decision = "reject" THEN rejected \cup {e.conn} ELSE rejected
-            /\ UNCHANGED <<cfg, added, removed, sclosed, accepted, winLo, winHi, rejClosed, closeCalled, started, replied, hung, sdNil, startedAtSd, cancelled, serveRet>>
+            /\ UNCHANGED <<cfg, added, removed, sclosed, accepted, winLo, winHi, rejClosed, closeCalled, started, replied, hung, sdNil, startedAtSd, cancelled, serveRet, lfailed, sdCalled>>
       [] e.ev = "cb.close" ->
             /\ closeCalled' = closeCalled \cup {e.conn}
-            /\ UNCHANGED <<cfg, added, removed, sclosed, accepted, winLo, winHi, rejected, rejClosed, started, replied, hung, sdNil, startedAtSd, cancelled, serveRet>>
+            /\ UNCHANGED <<cfg, added, removed, sclosed, accepted, winLo, winHi, rejected, rejClosed, started, replied, hung, sdNil, startedAtSd, cancelled, serveRet, lfailed, sdCalled>>
       [] e.ev = "handler.start" ->
             /\ started' = started \cup {e.conn}
-            /\ UNCHANGED <<cfg, added, removed, sclosed, accepted, winLo, winHi, rejected, rejClosed, closeCalled, replied, hung, sdNil, startedAtSd, cancelled, serveRet>>
+            /\ UNCHANGED <<cfg, added, removed, sclosed, accepted, winLo, winHi, rejected, rejClosed, closeCalled, replied, hung, sdNil, startedAtSd, cancelled, serveRet, lfailed, sdCalled>>
       [] e.ev = "cli.reply" ->
             /\ replied' = replied \cup {e.conn}
-            /\ UNCHANGED <<cfg, added, removed, sclosed, accepted, winLo, winHi, rejected, rejClosed, closeCalled, started, hung, sdNil, startedAtSd, cancelled, serveRet>>
+            /\ UNCHANGED <<cfg, added, removed, sclosed, accepted, winLo, winHi, rejected, rejClosed, closeCalled, started, hung, sdNil, startedAtSd, cancelled, serveRet, lfailed, sdCalled>>
       [] e.ev = "op" ->
             /\ hung' = IF e.a = "hangup" THEN hung \cup {e.p} ELSE hung
             /\ cancelled' = (cancelled \/ e.a = "cancel")
+            /\ lfailed' = (lfailed \/ e.a = "lfail") /\ sdCalled' = (sdCalled \/ e.a \in {"shutdown", "teardown"})   \* (teardown: the driver ends the scenario by cancelling)
             /\ UNCHANGED <<cfg, added, removed, sclosed, accepted, winLo, winHi, rejected, rejClosed, closeCalled, started, replied, sdNil, startedAtSd, serveRet>>
       [] e.ev = "shutdown.ret" ->
             /\ sdNil' = (e.err = "nil") /\ startedAtSd' = IF e.err = "nil" THEN started ELSE {}
-            /\ UNCHANGED <<cfg, added, removed, sclosed, accepted, winLo, winHi, rejected, rejClosed, closeCalled, started, replied, hung, cancelled, serveRet>>
+            /\ UNCHANGED <<cfg, added, removed, sclosed, accepted, winLo, winHi, rejected, rejClosed, closeCalled, started, replied, hung, cancelled, serveRet, lfailed, sdCalled>>
       [] e.ev = "serve.ret" ->
             /\ serveRet' = e.err
-            /\ UNCHANGED <<cfg, added, removed, sclosed, accepted, winLo, winHi, rejected, rejClosed, closeCalled, started, replied, hung, sdNil, startedAtSd, cancelled>>
-      [] OTHER -> UNCHANGED <<cfg, added, removed, sclosed, accepted, winLo, winHi, rejected, rejClosed, closeCalled, started, replied, hung, sdNil, startedAtSd, cancelled, serveRet>>
+            /\ UNCHANGED <<cfg, added, removed, sclosed, accepted, winLo, winHi, rejected, rejClosed, closeCalled, started, replied, hung, sdNil, startedAtSd, cancelled, lfailed, sdCalled>>
+      [] OTHER -> UNCHANGED <<cfg, added, removed, sclosed, accepted, winLo, winHi, rejected, rejClosed, closeCalled, started, replied, hung, sdNil, startedAtSd, cancelled, serveRet, lfailed, sdCalled>>
 
 Next ==
     /\ l <= Len(Trace)
